@@ -90,7 +90,9 @@ fn alphabet(fam: &Family, big: bool) -> Vec<Vec<f64>> {
             let base = [vec![0.8, 0.6, 1.2], vec![0.75, 0.625, 1.25], vec![0.3, 1.5, 0.4], vec![2.0, 0.1, 3.0], vec![1.0, 1.0, 1.0], vec![0.05, 2.5, 6.0]];
             base.iter().map(|a| a[..*p].to_vec()).collect()
         }
-        Family::PolyMat(s) => [1.0, 1e4, 1e-4, 3.0].iter().map(|a| vec![*a; s.p]).collect(),
+        // 1e20: finite in both widths, its square overflows f32;  1e160: likewise for f64 (and non-finite as f32)
+        Family::PolyMat(s) => [1.0, 1e4, 1e-4, 3.0, 1e20, 1e160].iter().map(|a| vec![*a; s.p]).collect(),
+        Family::XExpSin => vec![vec![1.4, 2.1], vec![1.5, 2.0], vec![0.5, 3.0], vec![3.0, 0.7], vec![1.0, 1.0], vec![0.8, 5.0]],
         Family::Perm4 => vec![vec![0.6, 1.8, 0.4, 0.25], vec![0.5, 2.0, 0.3, 0.2], vec![1.0, 1.0, 1.0, 1.0], vec![0.2, 3.0, -0.5, 0.6], vec![0.5, 0.3, 2.0, 0.2], vec![1.5, 0.7, 0.1, 0.05]],
         Family::ExpN(n) => (0..4).map(|v| (0..*n).map(|j| 0.4 * 2.0f64.powi(j as i32) * (1.0 + 0.1 * v as f64)).collect()).collect(),
     };
@@ -422,6 +424,16 @@ impl<'a, T: Sc> Explorer<'a, T> {
                 self.violate("C10", "differs-from-fresh-problem", format!("{} after history {:?} differ (bitwise) from those of a freshly built problem at the same parameters", what, self.hist));
             }
             self.heavy(&o1, ai);
+            if self.sc.par && self.prop == "C03" {
+                // a parallel problem computes its Jacobian in the worker pool it is queried in: the Jacobian must be the Kaufman
+                // Jacobian whatever the pool (one worker handles all columns in one task, three workers a few each)
+                for pool in [&*POOL1, &*POOL3] {
+                    let pc = subject.clone_box();
+                    let o = pool.install(move || observe(pc.as_ref()));
+                    self.heavy(&o, ai);
+                }
+                self.ctx.with(|s| s.inc("jacobian_checked_in_small_pools"));
+            }
             if self.sc.par && (self.prop == "C10" || self.prop == "C11") {
                 // the observable state of a parallel problem must not depend on the worker pool it is queried in
                 for (name, pool) in [("1 worker", &*POOL1), ("3 workers", &*POOL3)] {
@@ -892,6 +904,7 @@ fn base_families() -> Vec<(Family, usize)> {
         (Family::GaussDecayOff, 11),
         (Family::OLeary, 8),
         (Family::Perm4, 10),
+        (Family::XExpSin, 9),
         (Family::GenProd { m: 2, p: 2, inc: default_inc(2, 2) }, 8),
         (Family::GenProd { m: 3, p: 2, inc: [[true, true, false], [false, true, false], [false, false, false]] }, 9),
         // parameter 0 is shared by the first and the LAST function, the one in between does not depend on it
